@@ -64,6 +64,9 @@ def gen_atom(rng, rows, depth):
                 v = rng.choice(["abc", "Abc", "b", "m1", "zz", "top"])
         if not all(ch.isalnum() or ch in "-_" for ch in v) or v == "":
             v = "abc"
+        if v[:2] == "20" and len(v) == 10 and v[4] == "-" and rng.random() < 0.35:
+            # the same day written as a short date (six digits: a DATE, not an integer), or a relative date
+            v = rng.choice([v[2:4] + v[5:7] + v[8:10], v[2:4] + v[5:7] + v[8:10], "0d", "-30d", "-1y"])
         return f"{neg}{k}:{op}{v}"
     if r < 0.76:
         body = row["body"]
@@ -215,7 +218,7 @@ def classify(f: C.Failure, entry: dict) -> bool:
 RULE = (
     "indexes built by `db create` from generated directories (2-5 pages whose names differ in one character / contain _ / are prefixes, "
     "5-40 notes, tags, typed properties, links of every form, bodies with % _ \\ and mixed case); 40 filters per index with literals taken "
-    "from the index (every atom kind, operators, negation, nesting <= 4); universe read back from raw SQLite rows; impl result vs sat "
+    "from the index (every atom kind, operators, negation, nesting <= 4; date-valued property filters also as short and relative dates); universe read back from raw SQLite rows; impl result vs sat "
     "(spec) vs SQL model; non-trivial = (index, query) with a proper non-empty subset as result"
 )
 ASSUME = [
